@@ -500,7 +500,7 @@ type scenario struct {
 }
 
 var strategies = []string{"honest", "attacker-key", "bitflip", "seq-plus", "seq-minus", "signed-seq-plus", "chain", "othermsg", "accnum",
-	"empty-sig", "fee-granter", "accnum-zero", "rewrap-timeout", "feepayer-unsigned", "rewrap-fee", "rewrap-append", "rewrap-prepend", "rewrap-replace", "rewrap-dup", "rewrap-reorder", "multi-one-sig", "eth-forged-sender", "eth-feepayer-unsigned", "eth-wrong-nonce", "eth-wrong-chain", "eth-unprotected", "swap-slots"}
+	"empty-sig", "fee-granter", "accnum-zero", "inner-fresh-first", "rewrap-timeout", "feepayer-unsigned", "rewrap-fee", "rewrap-append", "rewrap-prepend", "rewrap-replace", "rewrap-dup", "rewrap-reorder", "multi-one-sig", "eth-forged-sender", "eth-feepayer-unsigned", "eth-wrong-nonce", "eth-wrong-chain", "eth-unprotected", "swap-slots"}
 
 func (s scenario) label() string {
 	return fmt.Sprintf("%s:%s:%s:%s:%s", s.Msg, s.Mode, s.Acct, s.Attach, s.Strategy)
@@ -712,7 +712,7 @@ func (h *hist) build(sc scenario, r *hx.Rng, A, B *acctT, attacker *keyT, edKey 
 		p.payer = strings.ToUpper(A.addr.String()) // the signer named again as fee payer, in another spelling
 	case "accnum-zero":
 		sp.accnum = 0
-	case "rewrap-timeout", "swap-slots", "feepayer-unsigned", "rewrap-fee", "multi-one-sig", "rewrap-append", "rewrap-prepend", "rewrap-replace", "rewrap-dup", "rewrap-reorder":
+	case "inner-fresh-first", "rewrap-timeout", "swap-slots", "feepayer-unsigned", "rewrap-fee", "multi-one-sig", "rewrap-append", "rewrap-prepend", "rewrap-replace", "rewrap-dup", "rewrap-reorder":
 	default:
 		panic("strategy " + sc.Strategy)
 	}
@@ -865,6 +865,55 @@ func (h *hist) build(sc scenario, r *hx.Rng, A, B *acctT, attacker *keyT, edKey 
 		p.slots[0].sig, p.slots[1].sig = p.slots[1].sig, p.slots[0].sig
 	}
 	return p, ""
+}
+
+// envelope: a MsgEthereumTx naming `sender` around somebody else's raw Ethereum transaction (the inner signed
+// payload), authenticated the way `sender` honestly can: a DIRECT signature of its own key / its multisig; an
+// Ethereum-style sender has nothing but the raw branch (the slot carries noise)
+func (h *hist) envelope(sender *acctT, raw []byte, tag int) *txPlan {
+	var etx ethtypes.Transaction
+	hash := ""
+	if rlp.DecodeBytes(raw, &etx) == nil {
+		hash = etx.Hash().Hex()
+	}
+	_, num, seq := h.accState(sender)
+	p := &txPlan{memo: fmt.Sprintf("h%d.envelope%d", h.id, tag), msgs: []sdk.Msg{&tokenstypes.MsgEthereumTx{TxType: "NativeSend", Sender: sender.addr.String(), Hash: hash, Data: raw}}}
+	if h.env == "execfee" {
+		p.fee = 4000
+	}
+	sl := slotT{attach: sender.key.pub, mode: signing.SignMode_SIGN_MODE_DIRECT, seq: seq}
+	p.slots = []slotT{sl}
+	switch {
+	case sender.style == "eth":
+		p.slots[0].sig = []byte(fmt.Sprintf("envelope-slot-noise-%03d-envelope-slot-noise-envelope-slot-noise-01234", tag%1000))[:65]
+	case sender.key.multi:
+		mk := func(sb []byte) *signing.MultiSignatureData {
+			ms := multisigtypes.NewMultisig(len(sender.key.members))
+			for j, k := range sender.key.members[:2] {
+				sg := []byte("placeholder")
+				if sb != nil {
+					sg = k.sign(sb)
+				}
+				multisigtypes.AddSignature(ms, &signing.SingleSignatureData{SignMode: signing.SignMode_SIGN_MODE_DIRECT, Signature: sg}, j)
+			}
+			return ms
+		}
+		p.slots[0].multi = mk(nil)
+		p.slots[0].multi = mk(h.signBytes(p, signing.SignMode_SIGN_MODE_DIRECT, h.w.ctx().ChainID(), num, seq, sender.addr))
+		p.slots[0].sig = slotSigBytes(p.slots[0])
+	default:
+		p.slots[0].sig = sender.key.sign(h.signBytes(p, signing.SignMode_SIGN_MODE_DIRECT, h.w.ctx().ChainID(), num, seq, sender.addr))
+	}
+	return p
+}
+
+func rawOf(p *txPlan) []byte {
+	for _, m := range p.msgs {
+		if e, ok := m.(*tokenstypes.MsgEthereumTx); ok {
+			return e.Data
+		}
+	}
+	return nil
 }
 
 // ---------------------------------------------------------------- one step: oracles, delivery, observation
@@ -1229,6 +1278,11 @@ func main() {
 		var accepted []bool
 		p, _ := h.build(sc, r, A, B, kX, kE, 0)
 		bz, _, _ := h.encode(p)
+		if sc.Strategy == "inner-fresh-first" && rawOf(p) != nil && B.state != "missing" {
+			// A's raw Ethereum transaction has never been submitted; B wraps it in an envelope of its own first
+			p = h.envelope(B, rawOf(p), 0)
+			bz, _, _ = h.encode(p)
+		}
 		// CheckTx first (its own state: the committed one, where the accounts are as in h.init)
 		checkTxCoq := "None"
 		checkBz := bz
@@ -1330,6 +1384,18 @@ func main() {
 			resequence()
 			honestNext(1)
 			resequence()
+		case "inner-rewrap":
+			// the inner payload of step 0 (A's raw Ethereum transaction, accepted or not) under envelopes of B, again and
+			// again; then A's own next transaction and A's own replay
+			if raw := rawOf(p); raw != nil && B.state != "missing" {
+				for k := 1; k <= 2; k++ {
+					e := h.envelope(B, raw, k)
+					ebz, _, _ := h.encode(e)
+					accepted = append(accepted, h.step(e, ebz, "the inner payload of step 0 under an envelope of B"))
+				}
+			}
+			honestNext(1)
+			accepted = append(accepted, h.step(p, bz, "replay of step 0"))
 		case "replay-weak":
 			// settings changed mid-history: the network turns weak after step 0; replay, honest follow-up, replay; back
 			gk := w.app.CustomGovKeeper
@@ -1467,7 +1533,7 @@ func main() {
 	attaches := []string{"none", "right", "wrong", "ed"}
 	accts := []string{"new", "onrecord", "eth-new", "eth-onrecord"}
 	acctsAll := []string{"new", "onrecord", "eth-new", "eth-onrecord", "multisig-new", "multisig-onrecord"}
-	follows := []string{"none", "replay", "next-replay", "resequence", "replay-weak"}
+	follows := []string{"none", "replay", "next-replay", "resequence", "replay-weak", "inner-rewrap"}
 
 	// ---- probes: which variant of the code is running (model selection; the whole run must then
 	// agree with that variant).  Both use an eth-style account with its key on record.
@@ -1631,6 +1697,19 @@ func main() {
 				m = "ethereum_tx"
 			}
 			run(scenario{Msg: m, Mode: md, Attach: "right", Acct: ac, Strategy: "honest", Follow: "export-import"})
+		}
+	}
+	// ---- systematic part 5f: messages that CARRY an inner signed payload (the raw Ethereum transaction of MsgEthereumTx):
+	// payload of A (fresh / already accepted) x envelope sender B in every state (cosmos key, multisig?, Ethereum-style,
+	// key-less) x how A itself is set up x chain mode
+	for _, env := range []string{"", "weak", "execfee"} {
+		for _, ac := range []string{"eth-onrecord", "eth-new", "onrecord", "new"} {
+			for _, bac := range []string{"", "new", "eth-new", "eth-onrecord"} {
+				for _, md := range []string{"raw-eth", "direct"} {
+					run(scenario{Msg: "ethereum_tx", Mode: md, Attach: "right", Acct: ac, Strategy: "honest", Follow: "inner-rewrap", BAcct: bac, Env: env})
+					run(scenario{Msg: "ethereum_tx", Mode: md, Attach: "right", Acct: ac, Strategy: "inner-fresh-first", Follow: "inner-rewrap", BAcct: bac, Env: env})
+				}
+			}
 		}
 	}
 	// ---- systematic part 6: multisig keys and MultiSignatureData
